@@ -10,7 +10,8 @@ EXPLANATION = (
     "a permutation of all attributes; both comparators iterate that table. R16.3 every sort comparator in sort_by_attr "
     "goes through apply_reverse, which reverses iff the flag; the recursion forwards attr/reverse unchanged. R16.4 "
     "sort_by_attr calls no Vec/slice mutator other than the two sorts. R16.5 kind(): Leaf<Parent; EntryLocation derives "
-    "Ord over (file, line, col) in that order. Decides the wiring of the comparators, not the string arithmetic.")
+    "Ord over (file, line, col) in that order. Decides the wiring of the comparators, not the string arithmetic."
+    " R16.6 argument ordering anchors. R16.7 path summaries of the Name arm of cmp_bench_arg_names follow the staging the value order needs.")
 NOT_DECIDED = ["totality/transitivity of the mixed integer/float/natural argument comparator on heterogeneous lists",
                "digit-run arithmetic in cmp_int and tokenisation", "panic-freedom of sort_by under an inconsistent order"]
 
